@@ -157,6 +157,19 @@ Theorem adjacency_wf_preserved : forall g0 progs sched,
 Proof. exact wf_adj_of_run. Qed.
 Print Assumptions adjacency_wf_preserved.
 
+Theorem create_guess_refuted :
+  exists progs sched,
+    progs = [[GCreateNode [3]; GDeleteNode 3]; [GCreateNode [2; 3]; GAddLabel 3 2]] /\
+    sched = [1; 0; 0; 0; 1; 0; 1; 1; 1; 0; 0; 1; 1; 1]%nat /\
+    k_id_guess 3 progs = true /\
+    let c := grun sched (ginit (gsetup lpg_setup) progs) in
+    finished c = true /\
+    outputs c = [[(GCreateNode [3], OZ 4); (GDeleteNode 3, OB false)]; [(GCreateNode [2; 3], OZ 3); (GAddLabel 3 2, OB false)]] /\
+    lobs_consistent (observe (sh c) lpg_labels) = true /\
+    chk_lpg_seq lpg_setup progs lpg_labels (outputs c) (observe (sh c) lpg_labels) = false.
+Proof. exact create_guess_refuted_l. Qed.
+Print Assumptions create_guess_refuted.
+
 Theorem prop_index_torn_refuted :
   exists progs sched, progs = [[PSetProp 0 1]; [PSetProp 0 2]] /\ sched = [0; 1; 0; 0; 0; 1; 1; 1]%nat /\
     k_prop progs = true /\
